@@ -19,12 +19,16 @@ type State struct {
 	Facts  Facts
 	Env    map[ssa.Value]Expr
 	RS     map[string]string
+	Hist   map[string]bool // plain text of rule-tracked atoms decided on this path (history, never invalidated)
 	Defers []ssa.CallInstruction
 	Trace  []string // diagnostic only (not part of the key): branch decisions
 }
 
 func (s *State) clone() *State {
-	n := &State{Facts: s.Facts.clone(), Env: make(map[ssa.Value]Expr, len(s.Env)), RS: make(map[string]string, len(s.RS))}
+	n := &State{Facts: s.Facts.clone(), Env: make(map[ssa.Value]Expr, len(s.Env)), RS: make(map[string]string, len(s.RS)), Hist: make(map[string]bool, len(s.Hist))}
+	for k := range s.Hist {
+		n.Hist[k] = true
+	}
 	for k, v := range s.Env {
 		n.Env[k] = v
 	}
@@ -54,6 +58,13 @@ func (s *State) key() string {
 	sort.Strings(rk)
 	sb.WriteString(strings.Join(rk, ";"))
 	sb.WriteString("|")
+	hk := make([]string, 0, len(s.Hist))
+	for k := range s.Hist {
+		hk = append(hk, k)
+	}
+	sort.Strings(hk)
+	sb.WriteString(strings.Join(hk, ";"))
+	sb.WriteString("|")
 	for _, d := range s.Defers {
 		sb.WriteString(siteName(d))
 		sb.WriteString(",")
@@ -63,7 +74,7 @@ func (s *State) key() string {
 
 // NewState returns an empty state.
 func NewState() *State {
-	return &State{Facts: Facts{m: map[string]Atom{}}, Env: map[ssa.Value]Expr{}, RS: map[string]string{}}
+	return &State{Facts: Facts{m: map[string]Atom{}}, Env: map[ssa.Value]Expr{}, RS: map[string]string{}, Hist: map[string]bool{}}
 }
 
 // X is the context handed to rule callbacks.
@@ -91,6 +102,10 @@ func (x *X) Set(k, v string) {
 		x.St.RS[k] = v
 	}
 }
+
+// Passed reports whether a rule-tracked branch with this (plain) atom text was
+// taken earlier on the path, regardless of later writes to its operands.
+func (x *X) Passed(text string) bool { return x.St.Hist[text] }
 
 // Pos renders the current instruction's position.
 func (x *X) Pos() string { return x.E.P.InstrPos(x.Ins) }
@@ -608,6 +623,9 @@ func (e *Explorer) branch(fr *Frame, s *State, iff *ssa.If, b *ssa.BasicBlock, w
 			at.Sticky = sticky
 			at.Frame = fr.ID
 			st.Facts.Add(at)
+			if sticky {
+				st.Hist[Plain(at.String())] = true
+			}
 		}
 		if len(st.Trace) < 400 {
 			st.Trace = append(st.Trace, at.String())
